@@ -109,7 +109,9 @@ def standard_check(spec, argv):
     prop = spec.prop
     tier = vlib.tier_from_args(argv)
     seed = vlib.seed_from_env()
-    wd = vlib.ensure_dir(os.path.join(vlib.WORK, prop))
+    # one scratch directory per property AND tier, so that a quick and a thorough run of the same property
+    # can go on at the same time without overwriting each other's case files
+    wd = vlib.ensure_dir(os.path.join(vlib.WORK, prop, 'replay' if '--replay' in argv else tier))
     if '--replay' in argv:
         return replay(spec, argv[argv.index('--replay') + 1], wd)
     rng = random.Random(seed * 1000003 + sum(map(ord, prop)))
